@@ -330,3 +330,321 @@ def r04_5(ctx):
         gs = normalized_guards(ctx, b, d0[3])
         ok = ok and any(op == '!true' and is_call(g, 'is_empty') and field_path(strip_all(g[2][0]))[1][:1] == ['dash_array'] for op, g, b2, si in gs)
     ctx.check(ok, R, key + '|flatten -> dash', b.loc(), 'path = flatten(..); if !dash_array.is_empty() { dash_path(&path, &style.dash_array, style.dash_offset) }', 'stroke does not dash the flattened path with (style.dash_array, style.dash_offset) exactly when the dash array is non-empty')
+
+
+# ====================================================================== C09
+def named_local(b, name):
+    for i, l in enumerate(b.locals):
+        if l.get('name') == name:
+            return i
+    return None
+
+
+def chop_loops(ctx, b, m):
+    """{arm variant: (header block, blocks)} for the float-conditioned loops inside the LineTo / Close arms"""
+    an = ctx.an(b)
+    cfg = an.cfg
+    out = {}
+    loops = cfg.loops()
+    for v in ('LineTo', 'Close'):
+        if v not in m.arms:
+            continue
+        region = arm_region(cfg, m.bb, m.arms[v])
+        for h, blocks in loops.items():
+            if h not in region or not blocks <= region:
+                continue
+            # the loop test (in the header block) is a float comparison
+            isf = False
+            t = b.blocks[h]['t']
+            if t['k'] == 'switch' and t.get('ty') == 'bool':
+                for st in b.blocks[h]['st']:
+                    if st['k'] == 'assign' and st['rv']['k'] == 'binop' and st['rv']['op'] in ('Gt', 'Lt', 'Ge', 'Le') and st['rv'].get('ty') in ('f32', 'f64'):
+                        isf = True
+            if isf:
+                out[v] = (h, blocks)
+    return out
+
+
+def loop_updates(ctx, b, blocks):
+    """line-free description of what a loop body changes: assigned user variables (with field) and builder calls"""
+    an = ctx.an(b)
+    ups = set()
+    for bi in blocks:
+        for k2, s in enumerate(b.blocks[bi]['st']):
+            if s['k'] != 'assign':
+                continue
+            p = s['p']
+            nm = b.locals[p['l']].get('name')
+            if nm and all(e['k'] == 'field' for e in p['pr']):
+                ups.add(('set', nm) + tuple(e['n'] for e in p['pr']))
+        t = b.blocks[bi]['t']
+        if t['k'] == 'call':
+            c = callee_of(t)
+            if c and (c['def'].startswith(PB) or c['def'].endswith('Vec::<T, A>::push')):
+                ct = an.call_term(bi)
+                recv = strip_all(ct[2][0])
+                rn = b.local_name(recv[1]) if recv[0] in ('mem', 'phi') else '?'
+                ups.add(('call', c['def'].split('::')[-1], rn))
+            dp = t['dest']
+            nm = b.locals[dp['l']].get('name')
+            if nm and not dp['pr']:
+                ups.add(('set', nm))
+    return ups
+
+
+def r09_1(ctx):
+    """dash state restarted for every subpath"""
+    R = 'R09.1'
+    b = ctx.body(DASH, R)
+    an = ctx.an(b)
+    cfg = an.cfg
+    key = 'dash::dash_path'
+    m = op_match(ctx, b, R)
+    if m is None:
+        return
+    # the saved state: a user variable whose only definition copies another DashState-typed user variable
+    cand = []
+    for l, ds in an.defs_of.items():
+        if not b.locals[l].get('name') or not b.local_ty(l).endswith('DashState'):
+            continue
+        if len(ds) == 1 and ds[0].kind == 'assign' and ds[0].node['rv']['k'] == 'use' and ds[0].node['rv']['o']['k'] in ('copy', 'move'):
+            src = ds[0].node['rv']['o']['p']
+            if not src['pr'] and b.local_ty(src['l']).endswith('DashState'):
+                cand.append((l, src['l'], ds[0]))
+    # copies of copies form one group; the group's root copies the running state directly
+    cl = set(c[0] for c in cand)
+    roots = [c for c in cand if c[1] not in cl]
+    def group_of(root):
+        g = set([root[0]])
+        grew = True
+        while grew:
+            grew = False
+            for c in cand:
+                if c[1] in g and c[0] not in g:
+                    g.add(c[0])
+                    grew = True
+        return g
+    if not ctx.check(len(roots) == 1, R, key + '|saved state', b.loc(), 'one saved copy of the dash state', 'cannot find the saved initial dash state (a DashState copied once from the running state): fail closed'):
+        return
+    initial_root, state, idef = roots[0]
+    initial_group = group_of(roots[0])
+    loops = cfg.loops()
+    op_header = None
+    for h, bl in loops.items():
+        if m.bb in bl and (op_header is None or len(bl) > len(loops[op_header])):
+            op_header = h
+    norm = [h for h, bl in loops.items() if m.bb not in bl and not any(m.bb in loops[h2] and h in loops[h2] for h2 in loops)]
+    ok = op_header is not None and cfg.dominates(idef.bb, op_header) and idef.bb not in loops.get(op_header, set())
+    ok = ok and bool(norm) and all(cfg.dominates(h, idef.bb) and idef.bb not in loops[h] for h in norm if any(st['k'] == 'assign' and st['p']['l'] == state for x in loops[h] for st in b.blocks[x]['st']))
+    ctx.check(ok, R, key + '|captured after normalisation', b.loc(idef.node['sp']), 'initial state captured after the offset normalisation loop and before the op loop', 'the saved initial dash state is not captured between the offset normalisation loop and the op loop')
+    def restores(region):
+        out = set()
+        for d in an.defs_of.get(state, []):
+            if d.bb in region and d.kind == 'assign' and not d.partial:
+                rv, bb2, idx2 = d.node['rv'], d.bb, d.idx
+                hops = 0
+                while rv['k'] == 'use' and rv['o']['k'] in ('copy', 'move') and not rv['o']['p']['pr'] and hops < 8:
+                    hops += 1
+                    src = rv['o']['p']['l']
+                    if src in initial_group:
+                        out.add(d.bb)
+                        break
+                    ds2 = an.reaching(src, bb2, idx2)
+                    if len(ds2) != 1 or ds2[0].kind != 'assign' or ds2[0].partial:
+                        break
+                    rv, bb2, idx2 = ds2[0].node['rv'], ds2[0].bb, ds2[0].idx
+        return out
+    stop = cfg.ipdom(m.bb)
+    if 'MoveTo' in m.arms:
+        region = arm_region(cfg, m.bb, m.arms['MoveTo'])
+        rs = restores(region)
+        ok, _p = cfg.must_pass_through(m.arms['MoveTo'], rs, exits=[stop] if stop is not None else None)
+        ctx.check(ok and bool(rs), R, key + '|MoveTo restarts the pattern', b.loc(), 'state = initial on every path of the MoveTo arm', 'the MoveTo arm does not restore the initial dash state on every path: the pattern is not restarted for the new subpath')
+    cl = chop_loops(ctx, b, m)
+    if 'Close' in m.arms and 'Close' in cl:
+        region = arm_region(cfg, m.bb, m.arms['Close'])
+        rs = restores(region)
+        h, bl = cl['Close']
+        ok, _p = cfg.must_pass_through(h, rs, exits=[stop] if stop is not None else None)
+        ctx.check(ok and bool(rs), R, key + '|Close restarts the pattern', b.loc(), 'state = initial on every path after the closing segment was chopped', 'after chopping the closing segment the Close arm does not restore the initial dash state on every path')
+    else:
+        ctx.fail(R, key + '|Close restarts the pattern', b.loc(), 'cannot find the chopping loop of the Close arm (fail closed)')
+
+
+def r09_2(ctx):
+    """the two chopping loops update the same state"""
+    R = 'R09.2'
+    b = ctx.body(DASH, R)
+    key = 'dash::dash_path'
+    m = op_match(ctx, b, R)
+    if m is None:
+        return
+    cl = chop_loops(ctx, b, m)
+    if not ctx.check(set(cl) == {'LineTo', 'Close'}, R, key + '|two chopping loops', b.loc(), 'chopping loops in LineTo and Close arms', 'cannot find the float-conditioned chopping loops of the LineTo and Close arms (found %s): fail closed' % sorted(cl)):
+        return
+    ref = loop_updates(ctx, b, cl['LineTo'][1])
+    got = loop_updates(ctx, b, cl['Close'][1])
+    need = {('set', 'state', 'on'), ('set', 'state', 'index'), ('set', 'state', 'remaining_length')}
+    ctx.check(need <= ref and len(ref) >= 8, R, key + '|reference loop (positive control)', b.loc(), 'LineTo loop updates: %s' % sorted(ref), 'the LineTo chopping loop no longer toggles/advances the dash state (%s): fail closed' % sorted(ref))
+    missing = sorted(ref - got)
+    extra = sorted(got - ref)
+    ctx.check(not missing and not extra, R, key + '|sibling loops agree', b.loc(), 'Close loop updates the same state as the LineTo loop',
+              'the loop that chops the closing segment does not update the same state as the loop that chops ordinary segments: missing %s, extra %s — e.g. without clearing is_first_segment two separate dashes on the closing segment are appended to the same buffered polyline and the gap between them is painted' % (missing, extra))
+
+
+def r09_3(ctx):
+    """the buffered first dash is never dropped unflushed"""
+    R = 'R09.3'
+    b = ctx.body(DASH, R)
+    an = ctx.an(b)
+    cfg = an.cfg
+    key = 'dash::dash_path'
+    buf = None
+    for i, l in enumerate(b.locals):
+        if l.get('name') and l['ty'].startswith('std::vec::Vec<euclid::Point2D'):
+            buf = i
+    if not ctx.check(buf is not None, R, key + '|buffer', b.loc(), 'first-dash buffer found', 'cannot find the Vec<Point> that buffers the first dash (fail closed)'):
+        return
+    def is_buf(t):
+        t = strip_all(t)
+        r0, n0 = field_path(t)
+        return r0 in (('mem', buf), ('phi', buf)) or (r0[0] in ('mem', 'phi') and r0[1] == buf)
+    pushes = [bi for bi, d, ct in calls_in(ctx, b) if d and d.endswith('Vec::<T, A>::push') and is_buf(ct[2][0])]
+    # kill points: re-initialisation of the buffer, and returning the dashed path
+    kills = []
+    for d in an.defs_of.get(buf, []):
+        if d.kind in ('assign', 'call') and not d.partial and d.bb in cfg.reach:
+            t = an.def_term(d) if d.kind == 'assign' else an.call_term(d.bb)
+            if is_call(strip_all(t), 'Vec::<T>::new'):
+                kills.append((d.bb, 're-initialised'))
+    for bi, d, ct in calls_in(ctx, b):
+        if d == PB + 'finish':
+            kills.append((bi, 'dropped at return'))
+    # flush blocks: builder calls whose arguments read the buffer's elements
+    flush = set()
+    for bi, d, ct in calls_in(ctx, b):
+        if d in (PB + 'line_to', PB + 'move_to'):
+            D = Deps(an)
+            for a in ct[2][1:]:
+                D.closure(a)
+                if any((x[0] in ('mem', 'phi') and x[1] == buf) for x in (D.visited | D.touched)):
+                    flush.add(bi)
+    # empty edges: switches on len(buf) > 0 / == 0 / is_empty(buf)
+    empty_edges = set()
+    for si, t in b.terminators('switch'):
+        if si not in cfg.reach or t.get('ty') != 'bool':
+            continue
+        c = an.term_at(si, len(b.blocks[si]['st']), t['o'])
+        neg = False
+        while c[0] == 'un' and c[1] == 'Not':
+            c, neg = c[2], not neg
+        false_t = [tt for v, tt in t['targets'] if v == '0']
+        true_t = t['otherwise']
+        if not false_t:
+            continue
+        false_t = false_t[0]
+        empty_when = None
+        if c[0] == 'bin' and c[1] in ('Gt', 'Ne') and const_val(c[3]) == 0 and is_call(strip_all(c[2]), '::len') and is_buf(strip_all(c[2])[2][0]):
+            empty_when = False
+        elif c[0] == 'bin' and c[1] == 'Eq' and const_val(c[3]) == 0 and is_call(strip_all(c[2]), '::len') and is_buf(strip_all(c[2])[2][0]):
+            empty_when = True
+        elif is_call(c, 'is_empty') and is_buf(c[2][0]):
+            empty_when = True
+        if empty_when is None:
+            continue
+        if neg:
+            empty_when = not empty_when
+        empty_edges.add((si, true_t if empty_when else false_t))
+    # exhausting an iteration over the buffer whose body emits every element is as good as a flush:
+    # the None edge of `next()` on an iterator derived from the buffer, when every cycle of that loop passes a flush block
+    loops = cfg.loops()
+    for mm in matches(ctx, b, 'Option'):
+        sc = strip_all(mm.scrut)
+        if not is_call(sc, 'Iterator::next'):
+            continue
+        D = Deps(an)
+        D.closure(sc[2][0])
+        if not any((x[0] in ('mem', 'phi') and x[1] == buf) for x in (D.visited | D.touched)):
+            continue
+        none_t = mm.arms.get('None', mm.otherwise)
+        for h, bl in loops.items():
+            if mm.bb in bl and none_t is not None and none_t not in bl:
+                if any(f in bl for f in flush) and not cfg.cyclic_without(bl, flush & bl):
+                    empty_edges.add((mm.bb, none_t))
+    ctx.check(len(pushes) >= 2 and len(flush) >= 3 and len(empty_edges) >= 3 and len(kills) >= 3, R, key + '|sites (positive control)', b.loc(),
+              '%d pushes, %d flush sites, %d emptiness tests, %d kill points' % (len(pushes), len(flush), len(empty_edges), len(kills)),
+              'cannot recover the buffer protocol (pushes %d, flushes %d, emptiness tests %d, kills %d): fail closed' % (len(pushes), len(flush), len(empty_edges), len(kills)))
+    # search: a path push -> kill that avoids flush blocks and empty edges
+    def reach_avoiding(start):
+        seen = {start: None}
+        st = [start]
+        while st:
+            x = st.pop()
+            for y in cfg.succ[x]:
+                if (x, y) in empty_edges or y in flush:
+                    continue
+                # a kill re-initialises: the path ends there (state becomes Empty)
+                if y not in seen:
+                    seen[y] = x
+                    if any(y == kb for kb, _ in kills):
+                        continue
+                    st.append(y)
+        return seen
+
+    def path_to(seen, y):
+        p = []
+        while y is not None:
+            p.append(y)
+            y = seen[y]
+        return p[::-1]
+    bad = {}
+    for p in pushes:
+        r = reach_avoiding(p)
+        for kb, what in kills:
+            if kb in r:
+                bad.setdefault((kb, what), []).append((p, path_to(r, kb)))
+    for (kb, what), ps in sorted(bad.items()):
+        arm = 'Close arm' if True else ''
+        ctx.fail(R, key + '|buffer %s unflushed@%s' % (what, 'return' if 'return' in what else ('Close' if any(kb in arm_region(cfg, mm.bb, mm.arms.get('Close', -1)) for mm in matches(ctx, b, 'PathOp') if 'Close' in mm.arms) else 'MoveTo')),
+                 b.loc(b.blocks[kb]['st'][-1]['sp'] if b.blocks[kb]['st'] else b.blocks[kb]['t']['sp']),
+                 'the buffered first dash can reach the point where the buffer is %s without having been emitted and without an emptiness test (e.g. push at bb%d, then blocks %s): the outline buffered so far is silently discarded (a closed subpath shorter than its first dash paints nothing)' % (what, ps[-1][0], ps[-1][1]))
+    if not bad:
+        ctx.ok(R, key + '|buffer never dropped unflushed', b.loc(), 'every path from a push to a re-initialisation/return passes a flush or an emptiness test')
+
+
+def r09_4(ctx):
+    """odd arrays double the period; the offset is reduced modulo the period and made non-negative"""
+    R = 'R09.4'
+    b = ctx.body(DASH, R)
+    an = ctx.an(b)
+    key = 'dash::dash_path'
+    # the period: the float compared `> 0` to guard everything (R04.4 checks the guard)
+    off = 3       # dash_offset parameter
+    arr = 2
+    dbl = False
+    for d in an.defs:
+        if d.kind != 'assign' or d.partial:
+            continue
+        t = an.def_term(d)
+        if t[0] == 'bin' and t[1] == 'Mul' and const_val(t[3]) == 2.0 and t[2][0] in ('phi', 'rec'):
+            gs = normalized_guards(ctx, b, d.bb)
+            for op, a, b2, si in gs:
+                if op == 'Eq' and const_val(b2) == 1 and a[0] == 'bin' and a[1] == 'Rem' and const_val(a[3]) == 2:
+                    n = strip_all(a[2])
+                    if (n[0] == 'un' and n[1] == 'PtrMetadata' and strip_all(n[2]) in (('param', arr), ('deref', ('param', arr)))) or (is_call(n, '::len') and strip_all(n[2][0]) in (('param', arr), ('deref', ('param', arr)))):
+                        dbl = True
+    ctx.check(dbl, R, key + '|odd array doubles the period', b.loc(), 'total *= 2 under dash_array.len() % 2 == 1', 'the period is not doubled exactly when the dash array has an odd number of entries')
+    rem = False
+    nonneg = False
+    for d in an.defs_of.get(off, []):
+        if d.kind != 'assign':
+            continue
+        t = an.def_term(d)
+        if t[0] == 'bin' and t[1] == 'Rem' and (t[2] == ('param', off) or (t[2][0] == 'phi' and t[2][1] == off)):
+            rem = True
+        if t[0] == 'bin' and t[1] == 'Add':
+            gs = normalized_guards(ctx, b, d.bb)
+            if any(op == 'Lt' and const_val(b2) == 0 and (a[0] in ('phi', 'bin') or a == ('param', off)) for op, a, b2, si in gs):
+                nonneg = True
+    ctx.check(rem, R, key + '|offset reduced modulo the period', b.loc(), 'dash_offset %= total', 'dash_offset is not reduced modulo the period (large offsets would loop for a long time)')
+    ctx.check(nonneg, R, key + '|negative offset wrapped', b.loc(), 'dash_offset += total when negative', 'a negative dash_offset is not wrapped into [0, period)')
